@@ -898,7 +898,7 @@ def _released(ops, state, k: int, n_items: int) -> bool:
     return state.get("@itpos", {}).get(k, 0) >= n_items and asked > n_items
 
 
-def release_histories(ctx, rid: str, depth: int = 4) -> None:
+def release_histories(ctx, rid: str, depth: int = 4, only=None) -> None:
     """C04 for the handle classes, as histories on the object model: when an operation on the handle raises because the
     source or the user's key failed, the source is closed by the time the failure has surfaced; when the last child of a
     tee is done - closed (started or not) or exhausted - the source is closed or exhausted."""
@@ -922,7 +922,7 @@ def release_histories(ctx, rid: str, depth: int = 4) -> None:
     gb_next = ctx.unit("itertools.GroupBy.__anext__")
     gb_init = gb_cls.methods["__init__"]
     ip = gb_init.param_names()
-    for n in (1, 2, 3):
+    for n in ((1, 2, 3) if only is None or "groupby" in only else ()):
         for pattern in list(_it.product("ab", repeat=n)):
             items = [("item", 0, i) for i in range(n)]
             keymap = {items[i]: ("v", pattern[i]) for i in range(n)}
@@ -978,7 +978,7 @@ def release_histories(ctx, rid: str, depth: int = 4) -> None:
     init = tee_cls.methods["__init__"]
     tp = init.param_names()
     peer = ctx.unit("itertools.tee_peer")
-    for n_children in (2, 3):
+    for n_children in ((2, 3) if only is None or "tee" in only else ()):
         for n_items in (0, 1, 2):
             ops = make_ops(ctx, init, {0: n_items})
             state0 = {"@heap": {}, "@lists": {}, "@trace": (), "@gens": {}}
@@ -1040,7 +1040,7 @@ def release_histories(ctx, rid: str, depth: int = 4) -> None:
     c_next = chain_cls.methods["__anext__"]
     cp = c_init.param_names()
     va = c_init.node.args.vararg.arg if c_init.node.args.vararg else None
-    for lens in ((1, 1), (2, 1), (0, 1), (1, 0)):
+    for lens in (((1, 1), (2, 1), (0, 1), (1, 0)) if only is None or "chain" in only else ()):
         faults = [("poll", k, j) for k in (0, 1) for j in range(1, lens[k] + 2)]
         for fault in faults:
             ops = make_ops(ctx, c_init, {0: lens[0], 1: lens[1]})
